@@ -127,6 +127,7 @@ def check_decode(res, case, data, bucket=None):
 
 def run(ctx):
     res = common.Result("C07")
+    rc.EMPTY_REST_IS_ERROR = True   # byte strings that end exactly where an n_bytes(-1) member begins are not decodable values (C08's case)
     import pycomm3 as p
     rng = ctx.rng()
     quick = ctx.quick
